@@ -40,7 +40,9 @@ REQUIRED = ["no_loss", "admitted_by_commit", "only_admitted_delivered", "save_ev
             # deepening round 3 (NutsProofs.Props.C14Vis): a listed failed event stays listed until its completion is recorded (ALL histories), Run leaves parked jobs alone
             "failed_stays_visible_or_completed", "restart_keeps_failed_visible", "restart_leaves_parked_job_alone", "parked_failed_job_stays_listed",
             "restart_never_calls_parked_job", "fact_run_only_reads_calls_and_reschedules", "fact_threshold_below_fatal_mark",
-            "calls_bounded_across_restarts", "runCost_le", "rest_row_stays_until_completed"]
+            "calls_bounded_across_restarts", "runCost_le", "rest_row_stays_until_completed",
+            # wave 9 (NutsProofs.Props.C14Handler): handleTransactionPayload as a model function; Finished only after WritePayload
+            "private_job_removed_only_after_payload_stored", "finished_before_write_loses_the_job", "fact_finished_only_after_write_payload"]
 
 
 def sel(filters, tx, ty):
@@ -305,7 +307,7 @@ def run(ctx):
         t0 = time.time()
     facts = ctx.facts()
     lap("facts")
-    thms = ctx.build_and_audit(["NutsProofs.Props.C14", "NutsProofs.Props.C14Ops", "NutsProofs.Props.C14Api", "NutsProofs.Props.C14Recv", "NutsProofs.Props.C14Vis"])
+    thms = ctx.build_and_audit(["NutsProofs.Props.C14", "NutsProofs.Props.C14Ops", "NutsProofs.Props.C14Api", "NutsProofs.Props.C14Recv", "NutsProofs.Props.C14Vis", "NutsProofs.Props.C14Handler"])
     lap("lean-build+audit")
     for r in REQUIRED:
         if not any(t.endswith("Props." + r) for t in thms):
